@@ -117,6 +117,12 @@ def run(ctx):
     otext = c02_oldstyle.translate(ctx) if text is not None else None
     if otext is not None:
         ctx.proofs(part="C02x")
+    # extension: the Packer classes and Serializer methods translated from the AST (gen/G02_packers.v), refinement to the
+    # hand wire model in props/C02y.v
+    from tools.checks import c02_packers
+    ptext = c02_packers.translate(ctx) if text is not None else None
+    if ptext is not None:
+        ctx.proofs(part="C02y")
     ctx.coverage["trusted_base"] = [
         "Coq 8.16.1 kernel (coqc, vm_compute); no axioms (Print Assumptions: closed)",
         "tools/tr/tr_wire.py: introspection of live packer objects and Serializable subclasses into Gallina tables",
@@ -313,6 +319,7 @@ def run(ctx):
             ctx.extra["cases_" + label] = len(cases)
     # ---- old-style glue: corpus replay, correspondence with the translated functions, class-level oracle
     c02_oldstyle.stage(ctx, reg, keys, text=otext)
+    c02_packers.stage(ctx, text=ptext)
     ctx.coverage["rule"] = ("every registry entry x generated legal values (boundary integers, empty/maximal byte strings, IPv4/IPv6/"
                             "domain addresses, all-bit patterns) packed and unpacked at random offsets between random bytes; every "
                             "shipped Serializable class x generated instances, plain, nested and listed; non-trivial = non-empty encoding; "
@@ -384,6 +391,9 @@ def replay(path):
         print(v["key"], "::", v["what"])
         if c.get("kind") == "oldstyle":
             rc |= c02_oldstyle.replay_case(c, ser)
+        elif c.get("kind") in ("packer-unpack", "packer-pack", "packer-roundtrip", "serializer"):
+            from tools.checks import c02_packers
+            rc |= c02_packers.replay_case(c)
         elif c.get("kind") == "class":
             mod, _, name = c["cls"].rpartition(".")
             cls = getattr(importlib.import_module(mod), name)
